@@ -155,6 +155,18 @@ func runC03(h *hz.H) {
 	if h.Replay != "" {
 		var wc wcase
 		h.LoadReplay(&wc)
+		if h.Prop == "C07" {
+			md := findType(wc.Type)
+			var recs []enum.Rec
+			for i, hx := range wc.Records {
+				b, _ := hex.DecodeString(hx)
+				recs = append(recs, enum.Rec{Bytes: b, Label: wc.Labels[i], Class: wc.Classes[i]})
+			}
+			evalAlias(h, md, recs, mergeBases(md))
+			h.Eval(true, 1)
+			h.Eval(true, 2)
+			return
+		}
 		md := findType(wc.Type)
 		if md == nil {
 			h.InternalError("replay: type not in this binary: " + wc.Type)
@@ -251,8 +263,85 @@ func runC03(h *hz.H) {
 		for i, j := range x.idx {
 			recs[i] = x.p.recs[j]
 		}
-		evalSeq(h, x.p.md, recs, x.p.bases, -1)
+		if h.Prop == "C07" {
+			evalAlias(h, x.p.md, recs, x.p.bases)
+		} else {
+			evalSeq(h, x.p.md, recs, x.p.bases, -1)
+		}
 	})
+	if h.Prop == "C07" {
+		h.Rep.Rule = "wire-level part of C07: every sequence of <=2 (3 for small alphabets) records of the C03 record alphabet (explicit empty values, repeated occurrences of one field, partial map entries...) is decoded from an exact-size buffer, fresh and with Merge into pre-populated messages (also twice in a row into the same message); the input must be unchanged and overwriting it afterwards must leave the deep struct snapshot unchanged; distinct = hash(type, base, stream)"
+		h.Rep.Assumptions = []string{"deep struct snapshot (reflect+unsafe) is the observation; streams the generated decoder rejects are skipped"}
+		return
+	}
 	h.Rep.Rule = "for every pulsar type: the record alphabet R(T) generated from its descriptor (per field: 2-3 values in the declared wire type incl. explicit zero, padded varints/tags/lengths, packed runs of 0..3 elements and unpacked elements whatever the declaration, two different sub-messages + empty, 10 map-entry shapes, unknown records of every wire type); ALL sequences over R(T) up to the stated length, decoded fresh and with Merge:true into 2 pre-populated messages; plus the concatenation law at every split point; non-trivial = reference accepts the stream and it is non-empty; distinct = hash(type, base, stream bytes)"
 	h.Rep.Assumptions = []string{"dynamicpb's reflection-driven decoder (protobuf-go v1.34.0) is the reference decoder; streams it rejects are outside the property's domain and only counted", "decoded values are observed through protobuf-go struct reflection, not through the generated accessors"}
+}
+
+
+// evalAlias: C07 at the wire level. The decoded message must share no memory with the input, whatever
+// mix of occurrences the stream holds, also when decoding twice into the same message.
+func evalAlias(h *hz.H, md protoreflect.MessageDescriptor, recs []enum.Rec, bases [][]byte) {
+	var parts [][]byte
+	wc := wcase{Type: string(md.FullName()), Mode: "C07"}
+	var classes []string
+	for _, r := range recs {
+		parts = append(parts, r.Bytes)
+		wc.Records = append(wc.Records, hex.EncodeToString(r.Bytes))
+		wc.Labels = append(wc.Labels, r.Label)
+		wc.Classes = append(wc.Classes, r.Class)
+		classes = append(classes, r.Class)
+	}
+	stream := concat(parts)
+	h.Eval(len(stream) > 0, hz.HashBytes([]byte("C07w"), []byte(md.FullName()), stream))
+	check := func(what string, g proto.Message, steps [][]byte, merge []bool) {
+		var bufs [][]byte
+		for i, st := range steps {
+			in := make([]byte, len(st)) // exact size: an alias can only be into caller memory
+			copy(in, st)
+			var err error
+			if p := hz.Catch(func() { err = proto.UnmarshalOptions{Merge: merge[i]}.Unmarshal(in, g) }); p != nil || err != nil {
+				return // totality / well-typedness are C06's and C03's business
+			}
+			if string(in) != string(st) {
+				h.Violate(classKey("C07", "wire/input-modified:"+what, md, classes), fmt.Sprintf("%s: Unmarshal modified its input %s -> %s", what, clip(st), clip(in)), wc)
+				return
+			}
+			// an earlier input must not have been written to either
+			for j, b := range bufs {
+				if string(b) != string(steps[j]) {
+					h.Violate(classKey("C07", "wire/earlier-input-modified:"+what, md, classes), fmt.Sprintf("%s: decoding %s overwrote the buffer of an earlier Unmarshal call (%s -> %s)", what, clip(st), clip(steps[j]), clip(b)), wc)
+					return
+				}
+			}
+			bufs = append(bufs, in)
+		}
+		snap := enum.Snapshot(g)
+		for _, fill := range []byte{0xAA, 0x55} {
+			for _, b := range bufs {
+				for i := range b {
+					b[i] = fill
+				}
+			}
+			if s2 := enum.Snapshot(g); s2 != snap {
+				h.Violate(classKey("C07", "wire/decoded-message-aliases-input:"+what, md, classes), fmt.Sprintf("%s of stream %s: overwriting the input afterwards changed the message\n before %s\n after  %s", what, clip(stream), clips(snap), clips(s2)), wc)
+				return
+			}
+		}
+	}
+	check("fresh decode", enum.NewGo(md), [][]byte{stream}, []bool{false})
+	if len(recs) >= 2 {
+		// the same records delivered by two successive Merge decodes into one message
+		check("two successive decodes", enum.NewGo(md), [][]byte{concat(parts[:1]), concat(parts[1:])}, []bool{false, true})
+	}
+	for bi, base := range bases {
+		d := enum.NewDyn(md)
+		if proto.Unmarshal(base, d) != nil {
+			continue
+		}
+		check(fmt.Sprintf("Merge decode into base%d", bi), enum.BuildGo(d), [][]byte{stream}, []bool{true})
+	}
+	if h.WantSample() && len(recs) == 2 {
+		h.Sample(map[string]interface{}{"type": wc.Type, "records": wc.Labels, "stream_hex": clip(stream)})
+	}
 }
